@@ -581,7 +581,7 @@ func TestCheck(t *testing.T) {
 
 	r.Phase(fmt.Sprintf("W: %d conventional special texts (null, nil, unlimited, max, -1, ...) as whole texts and as units", len(ref.ConventionalTexts)), func() {
 		r.Serial(func(w *vkit.W) {
-			for _, text := range ref.ConventionalTexts {
+			for _, text := range append(append([]string{}, ref.ConventionalTexts...), ref.Wrapped("10", "1 KiB")...) {
 				for _, rule := range []int{0, 1, 8, 9} {
 					judge(Case{Kind: "text", Text: vkit.B(text), Rule: rule}, w)
 					w.EvalRandom(vkit.Hash64("W", text, strconv.Itoa(rule)), true)
